@@ -70,7 +70,7 @@ func zzC03Assert(c *zzCfg, q *zzRequest, resp zzResp) {
 
 // zzH_C03_api: every scenario, both debug modes where the scenario makes it symbolic.
 func zzH_C03_api() {
-	s := zzDrawScenario(zzAllFocus)
+	s := zzDrawScenario(append(zzAllFocus, zzFShortHdrs))
 	_, resp := zzServe(s.m, s.q, nil, &zzHandler{})
 	zzC03Assert(s.c, s.q, resp)
 }
